@@ -224,6 +224,18 @@ func peelGoal(g *Term, extra *[]Val, hyps *[]*Term) *Term {
 		return peelGoal(g.Args[1], extra, hyps)
 	case OAnd:
 		return skolemize(g, extra)
+	case OExists:
+		// proving (exists x. P) is refuting (forall x. not P): the latter joins the hypotheses and is instantiated at the
+		// candidate values like any other universal assumption
+		if qi := quantInfo[g]; qi != nil {
+			nb := Not(qi.Body)
+			f := Forall(g.Bnd, nb)
+			if f.Op == OForall {
+				quantInfo[f] = &qInfo{Vars: qi.Vars, Body: nb}
+				*hyps = append(*hyps, f)
+				return False
+			}
+		}
 	}
 	return g
 }
@@ -305,9 +317,28 @@ func instantiate(p *Term, cs *candSet, extra []Val, budget *int) []*Term {
 			out = append(out, instantiate(a, cs, extra, budget)...)
 		}
 		return out
+	case OExists:
+		// an assumed existential: name its witness (fresh constants); the witness becomes a candidate value for the
+		// other universal assumptions (second round in groundQuery)
+		qi := quantInfo[p]
+		if qi == nil {
+			return nil
+		}
+		m := map[*Term]*Term{}
+		for _, v := range qi.Vars {
+			L := make([]*Term, len(v.L))
+			for i, b := range v.L {
+				L[i] = FreshVar("wit_"+v.Name, b.S)
+				m[b] = L[i]
+			}
+			instWitnesses = append(instWitnesses, Val{v.T, L})
+		}
+		return instantiate(Subst(qi.Body, m), cs, extra, budget)
 	}
 	return nil
 }
+
+var instWitnesses []Val
 
 // groundQuery builds the quantifier-free reduced query of an obligation (nil if nothing was instantiated).
 func groundQuery(o *Obligation, narrow bool) ([]*Term, *Term, bool) {
@@ -328,6 +359,7 @@ func groundQuery(o *Obligation, narrow bool) ([]*Term, *Term, bool) {
 		extra = append(extra, termCands(append(append([]*Term{}, o.PC...), o.Goal), 40)...)
 	}
 	budget := 1500
+	instWitnesses = nil
 	var as []*Term
 	any := len(hyps) > 0
 	all := append(append([]*Term{}, o.PC...), hyps...)
@@ -345,13 +377,14 @@ func groundQuery(o *Obligation, narrow bool) ([]*Term, *Term, bool) {
 		}
 	}
 	// second round: values that only appeared through the first round of instances (e.g. results of uninterpreted
-	// contract functions applied to a skolem constant)
+	// contract functions applied to a skolem constant, witnesses of assumed existentials)
 	if budget > 200 && len(quantified) > 0 {
 		have := map[*Term]bool{}
 		for _, v := range extra {
 			have[v.L[0]] = true
 		}
-		var more []Val
+		more := append([]Val{}, instWitnesses...)
+		instWitnesses = nil
 		for _, v := range termCands(as, 80) {
 			if !have[v.L[0]] && v.L[0].Op == OApp {
 				more = append(more, v)
